@@ -170,6 +170,16 @@ fn gen_case(rng: &mut Rng, focus: &str) -> Case {
       additive_explicit: !additive || rng.chance(1, 3),
     });
   }
+  // bias: a logger that owns no appender below / above loggers of the other additivity (the
+  // shapes in which "most specific matching logger overall" and "most specific logger that
+  // names an appender" differ)
+  if rng.chance(1, 4) {
+    let (parent, child) = *rng.pick(&[("app", "app::db"), ("app::db", "app::db::pool"), ("other", "other::mod")]);
+    loggers.retain(|l| l.name != parent && l.name != child);
+    let parent_additive = rng.chance(1, 2);
+    loggers.push(LoggerSpec { name: parent.into(), level: rng.range(2, 5) as u8, appenders: pick_apps(rng, false), additive: parent_additive, additive_explicit: true });
+    loggers.push(LoggerSpec { name: child.into(), level: rng.below(6) as u8, appenders: vec![], additive: !parent_additive, additive_explicit: true });
+  }
   let threads = rng.range(1, 4);
   // a handful of (target, level) combinations, each emitted several times through both APIs
   let n_combo = rng.range(3, 10) as usize;
